@@ -51,7 +51,12 @@ def op? : Sexp → Option Op
   | .list [.atom "add", x, y] => do some (.addPoint (← num? x, ← num? y))
   | .list [.atom "repl", x, y] => do some (.replaceLast (← num? x, ← num? y))
   | .list [.atom "rem", x, y] => do some (.removePoint (← num? x, ← num? y))
-  | .list [.atom "forkadd", x, y] => do some (.forkAdd (← num? x, ← num? y))
+  | .list [.atom "forkadd", x, y] => do some (.forkEdit false .add (← num? x, ← num? y))
+  | .list [.atom "forkrepl", x, y] => do some (.forkEdit false .replaceLast (← num? x, ← num? y))
+  | .list [.atom "forkrem", x, y] => do some (.forkEdit false .remove (← num? x, ← num? y))
+  | .list [.atom "cadd", x, y] => do some (.forkEdit true .add (← num? x, ← num? y))
+  | .list [.atom "crepl", x, y] => do some (.forkEdit true .replaceLast (← num? x, ← num? y))
+  | .list [.atom "crem", x, y] => do some (.forkEdit true .remove (← num? x, ← num? y))
   | _ => none
 
 /-- `(pts shape (x y) …)`, `(grid x0 dx nx y0 dy ny)` or `(rep k <pts>)` (the point set repeated
@@ -151,7 +156,6 @@ def opOkB (cur : Roi) : Op → Bool
        | .range a, .range b => a.isX == b.isX
        | _, _ => false)
   | .removePoint _ => (match cur with | .poly g => decide (2 ≤ g.vs.length) | _ => true)
-  | .forkAdd _ => (match cur with | .poly _ => false | _ => true)
   | _ => true
 
 def opsOkB : Roi → List Op → Bool
@@ -380,7 +384,7 @@ def visitMax (f : Roi → Rat) : Roi → List Op → Rat
   | cur, op :: rest => rmax (f cur) (visitMax f (Impl.applyOp cur op) rest)
 
 def opTag : Op → String
-  | .define _ => "D" | .addPoint _ => "a" | .replaceLast _ => "r" | .removePoint _ => "x" | .forkAdd _ => "F"
+  | .define _ => "D" | .addPoint _ => "a" | .replaceLast _ => "r" | .removePoint _ => "x" | .forkEdit false _ _ => "F" | .forkEdit true _ _ => "C"
   | _ => ""
 
 def stepOps (roiE opsE ptsE epsE tolE pyout : Sexp) : String :=
